@@ -11,6 +11,7 @@ mod scn_epoch;
 mod scn_incentive;
 mod scn_lair;
 mod scn_pair;
+mod scn_router;
 mod scn_trio;
 mod scn_vault;
 mod world;
@@ -50,6 +51,8 @@ fn main() {
                 "C11" => checks::c11::run(&tier, seed),
                 "C12" => checks::c12::run(&tier, seed),
                 "C13" => checks::c13::run(&tier, seed),
+                "C14" => checks::c14::run(&tier, seed),
+                "C15" => checks::c15::run(&tier, seed),
                 "C20" => checks::c20::run(&tier, seed),
                 _ => {
                     eprintln!("unknown property {id}");
@@ -76,6 +79,8 @@ fn main() {
                 "C11" => checks::c11::replay(&doc),
                 "C12" => checks::c12::replay(&doc),
                 "C13" => checks::c13::replay(&doc),
+                "C14" => checks::c14::replay(&doc),
+                "C15" => checks::c15::replay(&doc),
                 "C20" => checks::c20::replay(&doc),
                 _ => {
                     eprintln!("unknown property in replay file");
